@@ -28,13 +28,13 @@ theorem readUnit_eq_want (store : Loc UnitId → Option Bytes) (u : UnitLoc) (f 
 
 /-- The manifest's `(location, byte range)` for a unit really holds `bs`: the object exists, the range is inside
 it, and the range's bytes (or the whole object) are `bs`. -/
-def UnitStored (store : Loc UnitId → Option Bytes) (u : UnitLoc) (bs : Bytes) : Prop :=
+def UnitStored {L : Type} (store : L → Option Bytes) (u : ULoc L) (bs : Bytes) : Prop :=
   ∃ f, store u.1 = some f ∧
     match u.2 with
     | none => bs = f
     | some (lo, hi) => lo ≤ hi ∧ hi ≤ f.length ∧ bs = slice f lo hi
 
-theorem readUnit_of_stored (store : Loc UnitId → Option Bytes) (u : UnitLoc) (bs : Bytes)
+theorem readUnit_of_stored {L : Type} (store : L → Option Bytes) (u : ULoc L) (bs : Bytes)
     (h : UnitStored store u bs) : readUnit store u = .ok bs := by
   obtain ⟨f, hf, hm⟩ := h
   obtain ⟨l, r⟩ := u
@@ -44,8 +44,8 @@ theorem readUnit_of_stored (store : Loc UnitId → Option Bytes) (u : UnitLoc) (
   | some p => obtain ⟨lo, hi⟩ := p; simp only at hm; simp [readUnit, hf, hm.2.2]
 
 /-- A tiled read (`prepare_read_tiled`, any buffer limit ≥ 1) of a stored unit returns the same bytes. -/
-theorem readTiled_of_stored (store : Loc UnitId → Option Bytes) (limit : Nat) (hlim : 1 ≤ limit)
-    (u : UnitLoc) (bs : Bytes) (h : UnitStored store u bs) (es : Nat) (shape : List Nat)
+theorem readTiled_of_stored {L : Type} (store : L → Option Bytes) (limit : Nat) (hlim : 1 ≤ limit)
+    (u : ULoc L) (bs : Bytes) (h : UnitStored store u bs) (es : Nat) (shape : List Nat)
     (hsz : Ts.Chunk.numel shape * es = bs.length) : readTiled store limit es shape u = .ok bs := by
   obtain ⟨f, hf, hm⟩ := h
   obtain ⟨ts, hts, hflat⟩ := Ts.C16.C16_tile_bytes_concat shape true es limit u.2 f hlim (Or.inl rfl)
@@ -238,6 +238,105 @@ theorem assemble_chunks (shape : List Nat) (es maxBytes : Nat) (b : Bytes) (hthr
   rw [hs, hfl]
   simp only [pieceMembers, List.map_map]
   exact congrArg _ hflat
+
+/-- One leaf, any location type: if every write unit of the leaf is recorded at a location that holds the
+unit's staged bytes, the recorded entry restores exactly the leaf — plain tensor, chunked tensor (chunks
+consumed in any order, possibly stored by different writers) or blob. -/
+theorem restoreLeafG_ok {L : Type} (cfg : Cfg) (hc : 1 ≤ cfg.chunk) (store : L → Option Bytes)
+    (rd : Nat → List Nat → ULoc L → Except Err Bytes)
+    (hrd : ∀ u bs es shape, UnitStored store u bs → Ts.Chunk.numel shape * es = bs.length → rd es shape u = .ok bs)
+    (order : List ((Nat × Nat) × ULoc L) → List ((Nat × Nat) × ULoc L))
+    (horder : ∀ cs, (order cs).Perm cs)
+    (i : Nat) (l : Leaf) (hl : LeafOk l) (ws : List (WReq UnitId × Bytes)) (hws : leafWrites cfg i l = .ok ws)
+    (pls : List (ULoc L)) (hlen : pls.length = ws.length)
+    (hst : ∀ e ∈ ws.zip pls, UnitStored store e.2 e.1.2) :
+    ∃ en, entryOfUnits l (ws.zip pls) = .ok en ∧ restoreLeafWith store rd order en = .ok l := by
+  cases l with
+  | blob p =>
+    simp only [leafWrites, Except.ok.injEq] at hws
+    subst hws
+    match pls, hlen with
+    | [o], _ =>
+      refine ⟨.blob o, by simp [entryOfUnits], ?_⟩
+      have := readUnit_of_stored _ _ _ (hst ((⟨(i, none), false, false, false, p.length⟩, p), o) (by simp))
+      simp only at this
+      simp [restoreLeafWith, this, Except.map]
+  | tensor t =>
+    obtain ⟨hd, hwf⟩ := hl
+    obtain ⟨es, hes, hespos, hblen, hcase⟩ := leafWrites_tensor cfg hc i t hd hwf
+    have hfm : Ts.Serial.fromMemoryview t.dtype t.shape t.bytes = .ok t := by
+      have := Ts.Serial.fromMemoryview_ok hes hespos t.shape t.bytes (by rw [hblen, numel_eq, Nat.mul_comm])
+      simpa using this
+    rcases hcase with hplain | ⟨ps, hps, hne, hcons, hpos2, hnum, hchunked⟩
+    · rw [hplain] at hws
+      simp only [Except.ok.injEq] at hws
+      subst hws
+      match pls, hlen with
+      | [o], _ =>
+        refine ⟨.tensor t.dtype t.shape o, by simp [entryOfUnits], ?_⟩
+        have := hrd _ _ es t.shape (hst ((⟨(i, none), true, true, false, Ts.Chunk.numel t.shape * es⟩, t.bytes), o) (by simp))
+          (by simp only; exact hblen.symm)
+        simp only at this
+        simp [restoreLeafWith, hes, this, hfm]
+    · rw [hchunked] at hws
+      simp only [Except.ok.injEq] at hws
+      subst hws
+      -- the units, and what each of them carries
+      generalize hU : (ps.map (fun p => ((⟨(i, some p), true, true, false, p.2 * rowBytes t.shape es⟩ : WReq UnitId),
+          pieceBytes t.shape es t.bytes p))).zip pls = units at *
+      have hfst : units.map (·.1) = ps.map (fun p => ((⟨(i, some p), true, true, false, p.2 * rowBytes t.shape es⟩ : WReq UnitId),
+          pieceBytes t.shape es t.bytes p)) := by
+        rw [← hU]; exact List.map_fst_zip (by simp [hlen])
+      have hunit : ∀ x ∈ units, ∃ p ∈ ps, x.1.1.path.2 = some p ∧ x.1.2 = pieceBytes t.shape es t.bytes p := by
+        intro x hx
+        have : x.1 ∈ units.map (·.1) := List.mem_map_of_mem hx
+        rw [hfst, List.mem_map] at this
+        obtain ⟨p, hp, hxp⟩ := this
+        exact ⟨p, hp, by rw [← hxp], by rw [← hxp]⟩
+      have hpieces : units.map (fun x => x.1.1.path.2.getD (0, 0)) = ps := by
+        have : units.map (fun x => x.1.1.path.2.getD (0, 0)) = (units.map (·.1)).map (fun w => w.1.path.2.getD (0, 0)) := by
+          rw [List.map_map]; rfl
+        rw [this, hfst, List.map_map]
+        calc List.map _ ps = List.map id ps := List.map_congr_left (fun p _ => rfl)
+          _ = ps := List.map_id ps
+      have hune : units ≠ [] := by
+        intro h; rw [h] at hpieces; simp at hpieces; exact hne hpieces
+      obtain ⟨e, rest, hcons'⟩ := List.exists_cons_of_ne_nil hune
+      obtain ⟨p0, _, hp0, _⟩ := hunit e (by rw [hcons']; simp)
+      let chunks := units.map (fun x => (x.1.1.path.2.getD (0, 0), x.2))
+      refine ⟨.chunked t.dtype t.shape chunks, ?_, ?_⟩
+      · rw [hcons']; simp only [entryOfUnits, hp0, chunks, hcons']
+      · -- reads of the chunks, in the consumers' completion order
+        have hplen : ∀ p ∈ ps, Ts.Chunk.numel (p.2 :: (normShape t.shape).2) * es = (pieceBytes t.shape es t.bytes p).length := by
+          intro p hp
+          obtain ⟨ps', he2, _, hl2⟩ := Ts.C16.C16_chunk_bytes_concat t.shape es cfg.chunk t.bytes hc hnum hblen
+          rw [hps] at he2; cases he2
+          rw [hl2 p hp]
+          simp [Chunk.nbytes, numel_toChunk, Ts.Chunk.numel]
+        have hchunk : ∀ c ∈ order chunks,
+            (rd es (c.1.2 :: (normShape t.shape).2) c.2).map (fun b => (pieceRange t.shape es c.1, b))
+              = .ok (pieceRange t.shape es c.1, pieceBytes t.shape es t.bytes c.1) := by
+          intro c hcm
+          have hc2 : c ∈ chunks := (horder chunks).mem_iff.mp hcm
+          simp only [chunks, List.mem_map] at hc2
+          obtain ⟨x, hx, rfl⟩ := hc2
+          obtain ⟨p, hpm, hp, hb⟩ := hunit x hx
+          simp only [hp, Option.getD_some]
+          have hs := hst x hx
+          rw [hb] at hs
+          rw [hrd _ _ es (p.2 :: (normShape t.shape).2) hs (hplen p hpm)]; rfl
+        have hmap := mapE_ok _ (fun c => (pieceRange t.shape es c.1, pieceBytes t.shape es t.bytes c.1)) (order chunks) hchunk
+        have hperm : ((order chunks).map (fun c => (pieceRange t.shape es c.1, pieceBytes t.shape es t.bytes c.1))).Perm
+            (pieceMembers t.shape es t.bytes ps) := by
+          have h1 := (horder chunks).map (fun c => (pieceRange t.shape es c.1, pieceBytes t.shape es t.bytes c.1))
+          refine h1.trans ?_
+          have : chunks.map (fun c => (pieceRange t.shape es c.1, pieceBytes t.shape es t.bytes c.1))
+              = pieceMembers t.shape es t.bytes ps := by
+            simp only [chunks, pieceMembers, List.map_map]
+            rw [← hpieces, List.map_map]; rfl
+          rw [this]
+        have hstg := assemble_chunks t.shape es cfg.chunk t.bytes hc hnum hblen ps hps _ hperm
+        simp only [restoreLeafWith, hes, hmap, hstg, hfm]
 
 /-- One leaf: from the placements of its own write units and the fact that every unit reads back its staged
 bytes, the recorded entry restores exactly the leaf — plain tensor, chunked tensor (chunks consumed in any
